@@ -287,6 +287,30 @@ async def crash_session(rng: Rng, box: list | None = None) -> Session:
     return s
 
 
+async def finish_at(k: int, n: int = 3) -> dict:
+    """C03: the consumer's background fetch loop is stopped (`finish()`, as the worker does at shutdown) after k further
+    event-loop steps; afterwards no message may stay marked in-flight"""
+    s = Session(f"redis://fin{k}")
+    _RedisConsumer.POLLING_WAIT = 0.1
+    try:
+        for i in range(n):
+            await s.enqueue(f"f{i}", "ta", 5, "{}", {"ts": CLOCK.us})
+        cons = _RedisConsumer(s.broker, QUEUE, None, category=CATS["NORMAL"])
+        rcons.get_priorities_order = lambda _ch: [PrioritiesT(p) for p in (9, 5, 0)]
+        await cons.start()
+        await asyncio.sleep(0.1)
+        for _ in range(k):
+            await asyncio.sleep(0)
+        await cons.finish()
+        for _ in range(30):
+            await asyncio.sleep(0)
+        snap = s.srv.snapshot()
+        return {"k": k, "processing": [m for m, _ in snap["zsets"].get("processing", [])],
+                "waiting": snap["lists"].get(f"q:{QUEUE}:5:n", [])}
+    finally:
+        _RedisConsumer.POLLING_WAIT = 0
+
+
 async def race_session(rng: Rng) -> Session:
     """C14: two consumers (two connections) polling the same queue at the same time"""
     s = Session(f"redis://race{rng.random()}")
@@ -546,8 +570,26 @@ def one_race(arg) -> Result:
     return res
 
 
+F24 = "F24-redis-finish-leaves-fetch-in-flight"
+
+
+def one_finish(arg) -> Result:
+    seed, lo, hi, only = arg
+    res = Result(only or "redis")
+    for k in range(lo, hi):
+        o = vtime.run(lambda loop, k=k: finish_at(k), budget=300_000)
+        res.note(("redis-finish", k))
+        res.dist["redis-finish-points"] += 1
+        if only in (None, "C03") and (o["processing"] or len(o["waiting"]) != 3):
+            res.bad("impl", "after the consumer was finished (worker shutdown) a message stayed marked in-flight / did not return to its queue",
+                    case={"label": "redis-finish", "finish_after_steps": k}, observed=o, finding=F24)
+    return res
+
+
 def _dispatch(item) -> Result:
     kind = item[0]
+    if kind == "f":
+        return one_finish(item[1:])
     if kind == "s":
         return one_session(item[1:])
     if kind == "c":
@@ -561,6 +603,8 @@ def part(ctx, prop: str, profiles: list, n_quick: int = 12, n_deep: int = 60, n_
     items = [("s", ctx["seed"], i, profiles[i % len(profiles)], prop, n_ops) for i in range(n_deep if deep else n_quick)]
     items += [("c", ctx["seed"], i, prop) for i in range(crash * k)]
     items += [("r", ctx["seed"], i, prop) for i in range(race * k)]
+    if prop == "C03":
+        items += [("f", ctx["seed"], lo, lo + 15, prop) for lo in range(0, 60 if deep else 30, 15)]
     res = Result(prop)
     for r in pmap(_dispatch, items):
         res.merge(r)
